@@ -74,11 +74,8 @@ theorem repaired_cache_is_served (cfg : Cfg M) (w : World M) (o : Opts) (now siz
       rw [hw1]
       unfold load
       simp [hst, CacheFile.complete, optsMatch]
-    have hn : o.norm.norm = o.norm := by
-      cases o with
-      | mk libs mt c cg ex rest => cases c <;> cases cg <;> cases ex <;> rfl
     unfold transfer
-    simp only [hn, hc, Bool.not_true]
+    simp only [hc, Bool.not_true]
     simp [hl]
 
 /-- The hypothesis `unpickleErr ⊆ caught` is necessary: when unpickling the prefix raises a
